@@ -342,6 +342,12 @@ class ProgBuilder:
                 fl = "sync"
         self.nx += 1
         to = f"out{self.nx}" if rng.random() < 0.8 or self.nx < 2 else f"out{rng.randrange(1, self.nx)}"
+        # a copy ONTO an existing hard link would write through the shared inode into the cache itself (and into
+        # every other link): inode aliasing is outside the model and outside every property, so it is not generated
+        if kind == "copy" and to in getattr(self, "hl_dests", set()):
+            to = f"out{self.nx}"
+        if kind == "hard_link":
+            self.hl_dests = getattr(self, "hl_dests", set()) | {to}
         op = {"op": kind, "fl": fl, "by": by, "checked": checked, "to": to}
         if by == "key": op["key"] = kx(self.some_key())
         else: op["sri"] = self.some_addr()
